@@ -11,6 +11,7 @@ import (
 	"github.com/mimecast/dtail/internal/config"
 	"github.com/mimecast/dtail/internal/io/dlog"
 	"github.com/mimecast/dtail/internal/lcontext"
+	"github.com/mimecast/dtail/internal/mapr"
 	"github.com/mimecast/dtail/internal/omode"
 	"github.com/mimecast/dtail/internal/regex"
 	shandlers "github.com/mimecast/dtail/internal/server/handlers"
@@ -24,7 +25,8 @@ import (
 var c12Patterns = map[*regexp.Regexp]string{}
 
 func c12Compile(expr string) (*regexp.Regexp, error) {
-	if len(expr) > 0 && !verifrt.UFBool("compiles", expr) { // the empty pattern always compiles
+	// the empty pattern and the concrete (valid) patterns of the harness always compile
+	if len(expr) > 0 && !verifrt.IsConcrete(expr) && !verifrt.UFBool("compiles", expr) {
 		return nil, errC12
 	}
 	re := new(regexp.Regexp)
@@ -124,6 +126,11 @@ func c12RoundTrip(args config.Args, mode int) {
 			c := TailClient{baseClient: baseClient{Args: args}}
 			c.init()
 			cmds, cre = c.makeCommands(), c.Regex
+		case 2:
+			args.Mode = omode.CatClient
+			c := CatClient{baseClient: baseClient{Args: args}}
+			c.init()
+			cmds, cre = c.makeCommands(), c.Regex
 		}
 		return true
 	}()
@@ -168,9 +175,57 @@ func c12RoundTrip(args config.Args, mode int) {
 	plain, quiet, serverless := sh.VerifFlags()
 	verifrt.Assert(plain == args.Plain && quiet == args.Quiet && serverless == args.Serverless, "output-mode options differ between client and server")
 	verifrt.Assert(g.Glob == "/var/log/x.log", "file argument differs")
-	wantMode := omode.CatClient
+	wantMode := omode.CatClient // grep and cat both run as cat-type reads on the server
 	if mode == 1 {
 		wantMode = omode.TailClient
 	}
 	verifrt.Assert(g.Mode == wantMode, "server runs the request in another mode")
+}
+
+// VerifC12cMap: a dmap request: the query text (with n arbitrary bytes inside a
+// quoted string) and the per-file read commands reach the server unchanged.
+func VerifC12cMap(n int) {
+	dlog.VerifInstall(source.Client)
+	config.Server.MapreduceLogFormat = "generickv"
+	lit := verifrt.String("lit", n)
+	for i := 0; i < n; i++ {
+		verifrt.Assume(lit[i] != '"')
+	}
+	queryStr := "select count(x),last(y) from T where y eq \"" + lit + "\" group by g"
+	var args config.Args
+	args.QueryStr = queryStr
+	args.What = "/var/log/a.log,/var/log/b.log"
+	args.Serverless = true
+	args.Mode = omode.MapClient
+	args.Quiet = true
+	c := MaprClient{baseClient: baseClient{Args: args}}
+	q, err := mapr.NewQuery(queryStr)
+	verifrt.Assert(err == nil, "client rejects the query")
+	c.query = q
+	c.RegexStr = "\\|MAPREDUCE:T\\|"
+	c.init()
+	cmds := c.makeCommands()
+	verifrt.Assert(len(cmds) == 3, "one map command and one read command per file expected")
+
+	ch := handlers.NewClientHandler("srv")
+	shandlers.VerifCaptureGlobs = true
+	shandlers.VerifGlobCh = make(chan shandlers.VerifGlob, 4)
+	sh := shandlers.VerifNewServerHandler(false, false, false, 2, 2)
+	for _, cmd := range cmds {
+		sh.Write(c12Send(ch, cmd))
+	}
+	files := map[string]bool{}
+	for i := 0; i < 2; i++ {
+		select {
+		case g := <-shandlers.VerifGlobCh:
+			files[g.Glob] = true
+			str, flags, _, _ := g.Re.VerifParts()
+			verifrt.Assert(str == "\\|MAPREDUCE:T\\|" && len(flags) == 1 && flags[0] == regex.Default, "the table filter regex differs on the server")
+		case <-time.After(time.Second):
+			verifrt.Assert(false, "the server did not execute a read command of the mapreduce request")
+		}
+	}
+	verifrt.Assert(files["/var/log/a.log"] && files["/var/log/b.log"], "files of the mapreduce request differ")
+	verifrt.Assert(sh.VerifQuery() == queryStr, "the query text differs between client and server")
+	verifrt.Reach("map-compared")
 }
